@@ -95,6 +95,7 @@ def run(ctx):
     d.mkdir(exist_ok=True)
     (d / "s.tl").write_text(tlo_lib.edge_ns_primitives_schema())
     schemas.append(("edge_ns_primitives", "namespaced-primitive-names", [d / "s.tl"], True))
+    moved_total = 0
     import randschema
     n_rs, n_rt = (6, 14) if quick else (40, 120)
     for i in range(n_rs):
@@ -103,14 +104,20 @@ def run(ctx):
         txt = randschema.Gen(rng, ntypes=rng.choice([4, 6, 8, 12])).text()
         if i % 2 == 0:   # namespaced constructors named like builtins, right after the header
             txt = txt.replace(randschema.HEADER, randschema.HEADER + tlo_lib.NS_PRIMITIVE_LINES, 1)
+        # constructors of a union need not be adjacent: interleave with other types / continue in a later ---types--- section
+        txt, mv = tlo_lib.interleave_unions(txt, rng)
+        moved_total += mv
         (d / "s.tl").write_text(txt)
         schemas.append((f"rs{i}", "random-codec-schema", [d / "s.tl"], False))
     for i in range(n_rt):
         d = ctx.scratch / f"rt{i}"
         d.mkdir(exist_ok=True)
         nc = i % 7 == 3
-        (d / "s.tl").write_text(tlo_lib.rand_tlo_schema(rng, rng.choice([2, 4, 8, 16, 30]), noncanonical_builtin=nc))
+        txt, mv = tlo_lib.interleave_unions(tlo_lib.rand_tlo_schema(rng, rng.choice([2, 4, 8, 16, 30]), noncanonical_builtin=nc), rng)
+        moved_total += mv
+        (d / "s.tl").write_text(txt)
         schemas.append((f"rt{i}", "random-tlo-schema-noncanonical-builtin" if nc else "random-tlo-schema", [d / "s.tl"], False))
+    stats["union_constructors_made_non_adjacent"] = moved_total
     TS = [1, 77, 0x7fffffff, 0x80000000, 0xffffffff, 1700000000]
 
     runs = []   # dict per (schema, ts)
